@@ -1,0 +1,97 @@
+//go:build verif
+
+package federation
+
+import (
+	"sort"
+
+	"github.com/DrmagicE/gmqtt"
+	"github.com/DrmagicE/gmqtt/persistence/subscription"
+)
+
+// Read-only accessors for the verification harness (build tag "verif"). No behaviour.
+
+// VerifNodeName returns the node name of this federation member.
+func (f *Federation) VerifNodeName() string { return f.nodeName }
+
+// VerifPeers returns the names of the peers this node currently knows.
+func (f *Federation) VerifPeers() []string {
+	f.memberMu.Lock()
+	defer f.memberMu.Unlock()
+	var out []string
+	for name := range f.peers {
+		out = append(out, name)
+	}
+	sort.Strings(out)
+	return out
+}
+
+// VerifFedSubs returns the full topic names this node believes the given remote node is subscribed to.
+func (f *Federation) VerifFedSubs(node string) []string {
+	var out []string
+	f.fedSubStore.Iterate(func(clientID string, sub *gmqtt.Subscription) bool {
+		out = append(out, sub.GetFullTopicName())
+		return true
+	}, subscription.IterationOptions{Type: subscription.TypeAll, ClientID: node})
+	sort.Strings(out)
+	return out
+}
+
+// VerifLocalTopics returns the reference counters of the local subscription store (full topic name -> subscribers).
+func (f *Federation) VerifLocalTopics() map[string]uint64 {
+	f.localSubStore.Lock()
+	defer f.localSubStore.Unlock()
+	out := make(map[string]uint64, len(f.localSubStore.topics))
+	for k, v := range f.localSubStore.topics {
+		out[k] = v
+	}
+	return out
+}
+
+// VerifPeerQueue returns, for the outgoing event queue to the given peer: the number of events not yet
+// acknowledged, the id the next event will get, and whether the peer exists.
+func (f *Federation) VerifPeerQueue(node string) (pending int, nextID uint64, ok bool) {
+	f.memberMu.Lock()
+	p := f.peers[node]
+	f.memberMu.Unlock()
+	if p == nil {
+		return 0, 0, false
+	}
+	q, isQ := p.queue.(*eventQueue)
+	if !isQ {
+		return 0, 0, false
+	}
+	q.cond.L.Lock()
+	defer q.cond.L.Unlock()
+	return q.l.Len(), q.nextID, true
+}
+
+// VerifPeerEvents returns a rendering of the events waiting in the outgoing queue to the given peer.
+func (f *Federation) VerifPeerEvents(node string) []string {
+	f.memberMu.Lock()
+	p := f.peers[node]
+	f.memberMu.Unlock()
+	if p == nil {
+		return nil
+	}
+	q, isQ := p.queue.(*eventQueue)
+	if !isQ {
+		return nil
+	}
+	q.cond.L.Lock()
+	defer q.cond.L.Unlock()
+	var out []string
+	for e := q.l.Front(); e != nil; e = e.Next() {
+		out = append(out, e.Value.(*Event).String())
+	}
+	return out
+}
+
+// VerifSessionNext returns the id of the next event this node expects from the given remote node.
+func (f *Federation) VerifSessionNext(node string) (next uint64, ok bool) {
+	s := f.sessionMgr.get(node)
+	if s == nil {
+		return 0, false
+	}
+	return s.nextEventID, true
+}
